@@ -22,6 +22,8 @@ type MsgSpec struct {
 	Body    []byte     `json:"-"`
 	Files   []FileSpec `json:"-"`
 	Shape   string     `json:"shape"` // human-readable description for evidence
+	// Minimal: only the fields Validate asks for (no Content-*, Mbo, Type): the smallest messages there are
+	Minimal bool `json:"minimal,omitempty"`
 	// NoDate: the message has no Date field (Validate does not ask for one: still a valid message to queue).
 	NoDate bool `json:"no_date,omitempty"`
 	// Extra header lines (name, raw value) - used for hostile header content.
@@ -38,8 +40,10 @@ func (m MsgSpec) Wire() []byte {
 	var b bytes.Buffer
 	fmt.Fprintf(&b, "Mid: %s\r\n", m.MID)
 	fmt.Fprintf(&b, "Body: %d\r\n", len(m.Body))
-	fmt.Fprintf(&b, "Content-Transfer-Encoding: 8bit\r\n")
-	fmt.Fprintf(&b, "Content-Type: text/plain; charset=ISO-8859-1\r\n")
+	if !m.Minimal {
+		fmt.Fprintf(&b, "Content-Transfer-Encoding: 8bit\r\n")
+		fmt.Fprintf(&b, "Content-Type: text/plain; charset=ISO-8859-1\r\n")
+	}
 	if !m.NoDate {
 		fmt.Fprintf(&b, "Date: 2024/05/17 13:45\r\n")
 	}
@@ -47,7 +51,9 @@ func (m MsgSpec) Wire() []byte {
 		fmt.Fprintf(&b, "File: %d %s\r\n", len(f.Data), f.Name)
 	}
 	fmt.Fprintf(&b, "From: %s\r\n", m.From)
-	fmt.Fprintf(&b, "Mbo: %s\r\n", m.From)
+	if !m.Minimal {
+		fmt.Fprintf(&b, "Mbo: %s\r\n", m.From)
+	}
 	fmt.Fprintf(&b, "Subject: %s\r\n", m.Subject)
 	for _, t := range m.To {
 		fmt.Fprintf(&b, "To: %s\r\n", t)
@@ -55,7 +61,10 @@ func (m MsgSpec) Wire() []byte {
 	for _, h := range m.Extra {
 		fmt.Fprintf(&b, "%s: %s\r\n", h[0], h[1])
 	}
-	fmt.Fprintf(&b, "Type: Private\r\n\r\n")
+	if !m.Minimal {
+		fmt.Fprintf(&b, "Type: Private\r\n")
+	}
+	b.WriteString("\r\n")
 	b.Write(m.Body)
 	if len(m.Files) > 0 {
 		b.WriteString("\r\n")
